@@ -130,6 +130,17 @@ theorem validation_blocks_other_hashes (s : State) (x h : Nat) (voted : List Nat
     alGet (validatePool s x h).validatedPools x = some ((alGet cands x).getD []) :=
   ⟨validatePool_blocks s x h voted cands hg, validatePool_promotes s x h voted cands hg⟩
 
+/-- the same inside `poll`: when `poll` (with an empty event queue) consumes the arrival of header `h`
+    with data hash `x` while height `h ≥ 1` is still unvalidated, it answers `Ready(None)` and every voter
+    of another hash is named in a `BlockPeers` of the resulting queue -/
+theorem poll_validation_blocks_other_hashes (s : State) (h x : Nat) (voted : List Nat)
+    (cands : List (Nat × List Nat)) (hq : s.pendingEvents = [])
+    (hres : (pollNext s.stored s.queue s.waiters).2.2 = some (.ok h x))
+    (hg : alGet s.hashPools h = some (.candidates voted cands)) (hpos : 0 < h) :
+    (poll s).2 = .readyNone ∧
+    ∀ c ∈ cands, c.1 ≠ x → ∀ p ∈ c.2, ∃ bs, Ev.blockPeers bs ∈ (poll s).1.pendingEvents ∧ p ∈ bs :=
+  poll_validation_blocks s h x voted cands hq hres hg hpos
+
 /-- a queued `BlockPeers` is delivered by `poll` before anything else, and the blocked peers are then
     gone from every pool the tracker offers -/
 theorem blocked_peers_leave_all_pools (s : State) (ps : List Nat) (rest : List Ev)
@@ -266,5 +277,13 @@ example : ∀ e ∈ [Event.store 10 1010, .poll, .notify 0 1011 11, .store 11 10
 
 example : getPool (run init [Event.store 10 1010, .poll, .notify 0 1011 11, .store 11 1011, .poll, .poll]) 11
     = .ok [0] := by decide
+
+/-- the hypotheses of `poll_validation_blocks_other_hashes` are met by a concrete state: header 11 (hash 7)
+    is in the store, its task is queued, peer 2 voted hash 9 -/
+example :
+    let s := run init [.store 10 1, .poll, .notify 0 7 11, .notify 2 9 11, .store 11 7]
+    s.pendingEvents = [] ∧ (pollNext s.stored s.queue s.waiters).2.2 = some (.ok 11 7) ∧
+    alGet s.hashPools 11 = some (.candidates [0, 2] [(7, [0]), (9, [2])]) ∧
+    (poll s).1.pendingEvents = [.addPeers [0], .blockPeers [2]] := by decide
 
 end Lumina.Props.C40
